@@ -232,6 +232,15 @@ func runCase(spec gen10.ClusterSpec, entry string, nbrs []nbrSpec, relabel *rela
 	}
 	// print the input BEFORE running the checker (the checkers do not mutate the cluster, but the fit must be the one they see)
 	input := bt.CoqInput(coqEntry, menv)
+	_, fit := bt.CoqFit()
+	judge := func(l [][2]string) {
+		for _, d := range l {
+			o.viol = append(o.viol, res.Violation{Sig: d[0], Desc: d[1], Replay: map[string]interface{}{"Spec": spec, "Entry": entry, "Nbrs": nbrs, "Relabel": relabel}})
+		}
+	}
+	if relabel == nil {
+		judge(judgeFit(spec, fit))
+	}
 	defer func() {
 		// a checker that crashes on the input: reported as a violation with the panic site, no Coq case
 		if e := recover(); e != nil {
@@ -314,6 +323,13 @@ func runCase(spec gen10.ClusterSpec, entry string, nbrs []nbrSpec, relabel *rela
 	}
 	tr := sim10.Run(bt.Region, op)
 	st := stageOf(op.Desc(), rules)
+	if op.Desc() == "remove-orphan-peer" && relabel == nil {
+		for i := 0; i < op.Len(); i++ {
+			if rp, ok := op.Step(i).(operator.RemovePeer); ok {
+				judge(judgeOrphanRemoval(spec, fit, rp.FromStore))
+			}
+		}
+	}
 	o.tags = append(o.tags, "result:"+op.Desc())
 	o.summary = sim10.Summary(op)
 	o.nontriv = true
